@@ -465,6 +465,11 @@ def check(an: Analysis) -> None:
     from . import c10
 
     borrow(an, c10.check, {"C10.6": "C09.10"})
+    from . import c02 as c02_
+
+    # C02.1: leaving a scope makes current again what was current when it was *entered* (token reset): restoring the creation-time
+    # parent instead re-parents scopes opened afterwards - a scope completes while a scope nested under it is still running
+    borrow(an, c02_.check, {"C02.1": "C09.12"}, keep=lambda f: "MetricsContext" in f.at or "MetricsContext" in f.message)
 
     # ------------------------------------------------------------------ C09.9 no registration under a completed parent
     ob = an.ob("C09.9", "K2", "registration in the parent's _nested is unreachable when the parent is already completed (a completed scope keeps reporting is_completed)", [f"{SM}.__init__"])
